@@ -5,6 +5,8 @@
 import PysparklingVerif.Model.Pipeline
 import PysparklingVerif.Properties.C07
 import PysparklingVerif.Lemmas.RddFlat
+import PysparklingVerif.Model.ZeroCopy
+import PysparklingVerif.Lemmas.ZeroLemmas
 namespace PysparklingVerif.C01
 open PysparklingVerif.Rdd
 
@@ -173,5 +175,31 @@ example : reduce (· + ·) [[1, 2], [], [3]] = some (6 : Int) := by decide
 /-- subtraction is not associative and `reduce` then depends on the partitioning -/
 example : reduce (· - ·) [[1, 2], [3, 4]] ≠ reduce (· - ·) [[(1 : Int), 2, 3, 4]] := by decide
 example : aggregate (0 : Int) (· + ·) (· + ·) [[1], [2, 3]] = 6 := by decide
+
+
+/-! ### the zero value is never shared (store-passing model, Model/ZeroCopy.lean) -/
+
+-- OBLIGATION: PysparklingVerif.C01.zero_not_shared
+/-- with the two `copy.deepcopy(zeroValue)` of the code, for EVERY in-place mutating `seqOp` / `combOp`, every
+partitioning and every heap: the result object holds exactly what the pure aggregate computes from the CONTENTS of
+the zero value, the caller's zero object and every other object that existed before are unchanged, and the result
+is a fresh object -/
+theorem zero_not_shared (f : Zero.Obj → Int → Zero.Obj) (g : Zero.Obj → Zero.Obj → Zero.Obj) (h : Zero.Heap) (z : Zero.Ref)
+    (hz : z < h.length) (parts : List (List Int)) :
+    let r := Zero.aggregateCopy f g h z parts
+    r.1.read r.2 = Zero.aggregatePure f g (h.read z) parts ∧
+    (∀ x, x < h.length → r.1.read x = h.read x) ∧ h.length ≤ r.2 :=
+  Zero.aggregateCopy_spec f g h z hz parts
+
+-- OBLIGATION: PysparklingVerif.C01.shared_zero_differs
+/-- non-vacuity: WITHOUT the copies the same in-place functions give a different answer and destroy the caller's
+zero (`acc.append(x)` / `a.extend(b)` on zero `[]`, partitions [1] and [2]) -/
+theorem shared_zero_differs :
+    let f : Zero.Obj → Int → Zero.Obj := fun acc x => acc ++ [x]
+    let g : Zero.Obj → Zero.Obj → Zero.Obj := fun a b => a ++ b
+    let r := Zero.aggregateShared f g [[]] 0 [[1], [2]]
+    Zero.aggregatePure f g [] [[1], [2]] = [1, 2] ∧ r.1.read r.2 ≠ [1, 2] ∧ r.1.read 0 ≠ [] ∧
+    (Zero.aggregateCopy f g [[]] 0 [[1], [2]]).1.read (Zero.aggregateCopy f g [[]] 0 [[1], [2]]).2 = [1, 2] := by
+  decide +kernel
 
 end PysparklingVerif.C01
